@@ -19,10 +19,27 @@ transmitted, no two transmitted values differ by R (never both labels of one
 wire), and no XOR-combination of any number of them yields R.
 
 The negative results (streaming mode restarts the tweak counter per
-instruction; sha2pc sends both labels of its output wires) are at the end.
+instruction; sha2pc sends both labels of its output wires) follow.
+
+Last section: a garbler PROCESS that serves several overlapping sessions on one
+shared circuit value, the garbling scratch of all of them drawn from that
+circuit's pool (`Model/GarblerProc.lean` on top of the ownership model of C17 /
+C01).  For the code as it is (`circuit.Garbler` never releases its garbling)
+every session's OT and result loop read the session's OWN garbling on every
+history (`C04_proc_serves_own`, `C04_proc_ot_serves_own_wires`), and then the
+UNION of everything all evaluators of the process obtain does not span any
+session's offset (`C04_process_offset_not_in_span`, `C04_process_secrecy`).
+What the property excludes is exhibited too: a garbler that returns its scratch
+to the pool before its last use serves another session's wire pairs
+(`C04_proc_early_release_serves_foreign`), and two evaluators that are served
+the wire pairs of ONE garbling with different choice bits hold both labels of a
+wire (`C04_foreign_wires_two_labels`).
 -/
 import MpcVerif.Proofs.SymGarble
 import MpcVerif.Proofs.Proto2
+import MpcVerif.Proofs.SymProc
+import MpcVerif.Proofs.GarblerProc
+import MpcVerif.Proofs.PoolGarble
 
 namespace Mpc.Sym
 open Mpc LabelAlg
@@ -393,4 +410,292 @@ theorem C04_ot_range_unguarded_leaks {L : Type} [LabelAlg L] (H : Hash L) (p : C
     exact ⟨i, hic, by simp [hwire, WireL.labelFor]⟩
   · simp [xor_assoc', xor_comm', xor_left_comm']
 
+/-! ### A garbler process: overlapping sessions on one shared circuit value -/
+
+/-- The labels an OT that reads the wire table `served` delivers for the
+choice bits `y` (evaluator input wires `n0 .. n0+n1-1`). -/
+def otLabels {L : Type} [LabelAlg L] (p : Circuit2) (served : Store (WireL L)) (y : List Bool) : List L :=
+  List.zipWith (fun (w : WireL L) b => w.labelFor b)
+    ((List.range p.n1).map fun i => served.get (p.n0 + i))
+    ((List.range p.n1).map fun i => y.getD i false)
+
+/-- The evaluator's view of a session whose first flight is that of garbling
+`G` and whose OT read the wire table `served` (the memory `garbled.Wires`
+points to at the time the OT reads it). -/
+def servedView {L : Type} [LabelAlg L] (p : Circuit2) (key : List UInt8) (G : Garbled L)
+    (served : Store (WireL L)) (x y : List Bool) : List L :=
+  msgLabels (garblerFlight1 p key G x) ++ otLabels p served y
+
+/-- Served from its own garbling, a session's view is the honest view. -/
+theorem servedView_own {L : Type} [LabelAlg L] (p : Circuit2) (key : List UInt8) (G : Garbled L)
+    (x y : List Bool) : servedView p key G G.wires x y = evaluatorView p key G x y := rfl
+
+theorem otLabels_congr {L : Type} [LabelAlg L] (p : Circuit2) (a b : Store (WireL L)) (y : List Bool)
+    (h : ∀ i, i < p.n1 → a.get (p.n0 + i) = b.get (p.n0 + i)) : otLabels p a y = otLabels p b y := by
+  simp only [otLabels]
+  congr 1
+  apply List.map_congr_left
+  intro i hi
+  exact h i (List.mem_range.mp hi)
+
+/-- One session of the process in the symbolic model: its own valuation of the
+permute bits (own tape), its own hash model (own key), key bytes and inputs. -/
+structure SymSession (Code : Type) where
+  σ    : Atom Code → Bool
+  code : SymL Code → Code
+  key  : List UInt8
+  x    : List Bool
+  y    : List Bool
+
+def SymSession.Honest (p : Circuit2) (S : SymSession Code) : Prop :=
+  S.σ .R = true ∧ Separates S.σ S.code ∧ S.x.length = p.n0
+
+/-- The session's call of `Circuit.Garble`: its hash, offset and input labels. -/
+noncomputable def SymSession.job (S : SymSession Code) : Pool.GJob (SymL Code) :=
+  ⟨symHash S.σ S.code, symR S.σ, symInl S.σ⟩
+
+noncomputable def SymSession.garbling (p : Circuit2) (S : SymSession Code) : Garbled (SymL Code) :=
+  p.c.garble (symHash S.σ S.code) (symR S.σ) (symInl S.σ)
+
+/-- Everything the evaluators of a process obtain, as process values: for every
+session in `live` its first flight, and the labels its OT delivered from the
+wire table `served s`. -/
+def processView (p : Circuit2) (ss : Nat → SymSession Code) (live : Nat → Prop)
+    (served : Nat → Store (WireL (SymL Code)) → Prop) : PSym Code → Prop :=
+  fun v => ∃ s, live s ∧ ∃ t,
+    (t ∈ msgLabels (garblerFlight1 p (ss s).key ((ss s).garbling p) (ss s).x) ∨
+      ∃ d, served s d ∧ t ∈ otLabels p d (ss s).y) ∧ v = lift s t
+
+/-- **C04 for a process.**  Any number of sessions on one circuit, each with
+its own tape, key, inputs and OT choices.  If every session's OT serves the
+wire pairs of ITS OWN garbling (on the evaluator's input wires), then the union
+of everything all evaluators obtain does not span the offset of ANY session:
+for each session `k` there is a linear functional that is 1 on `R_k` and 0 on
+every value any evaluator of the process holds. -/
+theorem C04_process_offset_not_in_span (p : Circuit2) (hwf : p.WF = true)
+    (ss : Nat → SymSession Code) (hh : ∀ s, (ss s).Honest p) (live : Nat → Prop)
+    (served : Nat → Store (WireL (SymL Code)) → Prop)
+    (hown : ∀ s d, live s → served s d →
+      ∀ i, i < p.n1 → d.get (p.n0 + i) = ((ss s).garbling p).wires.get (p.n0 + i))
+    (k : Nat) :
+    ¬ PSpan (processView p ss live served) (lift k (symR (ss k).σ)) := by
+  obtain ⟨hσ, hsep, hx⟩ := hh k
+  obtain ⟨S, hR, hT⟩ := C04_whole_circuit (ss k).σ hσ (ss k).code hsep p hwf (ss k).key (ss k).x (ss k).y hx
+  intro hspan
+  have hz : ∀ v, processView p ss live served v → pphi k S v = false := by
+    intro v hv
+    obtain ⟨s, hl, t, ht, rfl⟩ := hv
+    by_cases hsk : s = k
+    · subst hsk
+      rw [pphi_lift_same]
+      apply hT
+      simp only [evaluatorView, List.mem_append]
+      rcases ht with ht | ⟨d, hd, ht⟩
+      · exact Or.inl ht
+      · right
+        rw [otLabels_congr p d _ _ (hown s d hl hd)] at ht
+        exact ht
+    · exact pphi_lift_ne k s S t hsk
+  have := pphi_span k S _ hz _ hspan
+  rw [pphi_lift_same, hR] at this
+  cases this
+
+/-- In a process whose OTs serve their own garblings, no value any evaluator
+obtains is a session's offset and no two of them — obtained in the same or in
+different sessions — differ by a session's offset: never both labels of a wire. -/
+theorem C04_process_no_two_labels_of_a_wire (p : Circuit2) (hwf : p.WF = true)
+    (ss : Nat → SymSession Code) (hh : ∀ s, (ss s).Honest p) (live : Nat → Prop)
+    (served : Nat → Store (WireL (SymL Code)) → Prop)
+    (hown : ∀ s d, live s → served s d →
+      ∀ i, i < p.n1 → d.get (p.n0 + i) = ((ss s).garbling p).wires.get (p.n0 + i))
+    (k : Nat) :
+    let V := processView p ss live served
+    (∀ v, V v → v ≠ lift k (symR (ss k).σ)) ∧
+    (∀ v u, V v → V u → v.xor u ≠ lift k (symR (ss k).σ)) := by
+  intro V
+  have hns := C04_process_offset_not_in_span p hwf ss hh live served hown k
+  constructor
+  · intro v hv heq
+    exact hns (heq ▸ PSpan.mem hv)
+  · intro v u hv hu heq
+    exact hns (heq ▸ PSpan.xor (PSpan.mem hv) (PSpan.mem hu))
+
+/-- Non-vacuity: honest sessions exist for every circuit (coarsest hash model). -/
+example (p : Circuit2) : ∃ ss : Nat → SymSession Bool, ∀ s, (ss s).Honest p :=
+  ⟨fun _ => ⟨fun _ => true, coarseCode, [], List.replicate p.n0 false, []⟩,
+    fun _ => ⟨rfl, coarse_separates _, by simp⟩⟩
+
+/-- Non-vacuity of the ownership hypothesis: all sessions live, every OT reading
+its own session's wire table. -/
+example (p : Circuit2) (ss : Nat → SymSession Bool) :
+    ∀ s d, (fun _ : Nat => True) s → (fun s d => d = ((ss s).garbling p).wires) s d →
+      ∀ i, i < p.n1 → d.get (p.n0 + i) = ((ss s).garbling p).wires.get (p.n0 + i) := by
+  intro s d _ hd i _; rw [hd]
+
+/-- **Two evaluators served from ONE garbling hold both labels of a wire.**
+In any label algebra: session A's OT reads the wire table of session B's
+garbling (the scratch behind A's `garbled.Wires` was handed to B), session B's
+OT reads it too; if the two evaluators choose differently on evaluator-input
+wire `i`, the union of the two views contains both labels of wire `n0 + i` of
+session B: their XOR is B's offset. -/
+theorem C04_foreign_wires_two_labels {L : Type} [LabelAlg L] (H : Hash L) (p : Circuit2)
+    (hwf : p.WF = true) (keyA keyB : List UInt8) (GA : Garbled L) (r : L) (inl : Nat → L)
+    (xA xB yA yB : List Bool) (i : Nat) (hi : i < p.n1) (hne : yA.getD i false ≠ yB.getD i false) :
+    let GB := p.c.garble H r inl
+    ∃ t ∈ servedView p keyA GA GB.wires xA yA, ∃ u ∈ evaluatorView p keyB GB xB yB, t ^^^ u = r := by
+  intro GB
+  simp only [Circuit2.WF, Bool.and_eq_true, decide_eq_true_eq] at hwf
+  obtain ⟨⟨⟨hcwf, hnin⟩, _⟩, _⟩ := hwf
+  have hwire : GB.wires.get (p.n0 + i) = ⟨inl (p.n0 + i), inl (p.n0 + i) ^^^ r⟩ :=
+    garble_input_wires H p.c r inl hcwf (p.n0 + i) (by omega)
+  have hmem : ∀ y : List Bool, (GB.wires.get (p.n0 + i)).labelFor (y.getD i false) ∈ otLabels p GB.wires y := by
+    intro y
+    simp only [otLabels, List.zipWith_map_left, List.zipWith_map_right, List.zipWith_self, List.mem_map,
+      List.mem_range]
+    exact ⟨i, hi, rfl⟩
+  refine ⟨_, List.mem_append_right _ (hmem yA), _, List.mem_append_right _ (hmem yB), ?_⟩
+  rw [hwire]
+  cases ha : yA.getD i false <;> cases hb : yB.getD i false <;>
+    simp_all [WireL.labelFor, xor_assoc', xor_comm', xor_left_comm']
+
+/-- Non-vacuity: a well-formed two-party circuit with an evaluator input wire. -/
+def procExample : Circuit2 :=
+  { c := { numWires := 3, nIn := 2, nOut := 1, gates := [⟨.and, 0, 1, 2⟩] }, n0 := 1, n1 := 1, outWidths := [1] }
+
+example : procExample.WF = true ∧ 0 < procExample.n1 := by decide
+
 end Mpc.Sym
+
+namespace Mpc.GProc
+open Mpc Mpc.Pool Mpc.Sym LabelAlg
+
+/-- **Ownership until the session ends** (the code as it is: `circuit.Garbler`
+never calls `garbled.Release()`).  For every history of a garbler process on one
+circuit value — sessions starting while others stall before their OT, between
+its messages or before the result, `Garble` calls failing part-way and putting
+their scratch back, any scratch re-use — in every notion of scratch contents
+and for every assignment of (tape, key) to sessions: each session's `*Garbled`
+is still a live handle that owns the memory its `Wires` slice points to, and
+EVERYTHING the session's OT (at the call and at the return) and its result loop
+read there is the single-goroutine result of the session's own `Garble` call. -/
+theorem C04_proc_serves_own {Mem Job : Type} (P : Params Mem Job) (job : Nat → Job) (evs : List PEv)
+    (st : PState Mem Job) (hrun : runProc false P job (initP P) evs = some st) :
+    ∀ e ∈ st.sess, ∃ H, st.σ.handle e.handle = some H ∧ H.owned = some e.scratch ∧ H.job = job e.id ∧
+      ∀ d, d ∈ e.otSeen ∨ d ∈ e.decSeen → d = seqGarble P (job e.id) H.init :=
+  (pinv_run P job evs _ st (pinv_init P job) hrun).sess
+
+/-- The executed instance (`Driver/C04.lean`): on every history the model of the
+code as it is answers "served by itself, decoded" for every session — this is
+what the real sessions of the `overlap` harness are compared with, line by line. -/
+theorem C04_proc_digest_serves_own (evs : List PEv) (st : DState) (hrun : runDigest false evs = some st) :
+    ∀ e ∈ st.sess, (e.otSeen ≠ [] → servedBy e = some e.id) ∧ decodesOk e = true := by
+  intro e he
+  obtain ⟨H, _, _, _, hd⟩ := C04_proc_serves_own traceParams digestOf evs st hrun e he
+  have hseq : ∀ m0, seqGarble traceParams (digestOf e.id) m0 = digestOf e.id := by
+    intro m0; simp [seqGarble, traceParams]
+  have hot : ∀ d ∈ e.otSeen, d = digestOf e.id := fun d h => (hd d (Or.inl h)).trans (hseq _)
+  have hdec : ∀ d ∈ e.decSeen, d = digestOf e.id := fun d h => (hd d (Or.inr h)).trans (hseq _)
+  constructor
+  · intro hne
+    simp only [servedBy]
+    cases hl : e.otSeen with
+    | nil => exact absurd hl hne
+    | cons d ds =>
+      have h1 : d = digestOf e.id := hot d (by simp [hl])
+      have h2 : ds.all (· == d) = true := by
+        simp only [List.all_eq_true, beq_iff_eq]
+        intro x hx
+        rw [h1]; exact hot x (by simp [hl, hx])
+      have h0 : d ≠ 0 ∧ (ds.all fun x => x == d) = true := ⟨by rw [h1]; simp [digestOf], h2⟩
+      show (if d ≠ 0 ∧ (ds.all fun x => x == d) = true then some (d - 1) else none) = some e.id
+      rw [if_pos h0, h1]
+      simp [digestOf]
+  · simp only [decodesOk, Bool.and_eq_true, List.all_eq_true, beq_iff_eq]
+    exact ⟨hot, hdec⟩
+
+/-- Non-vacuity (and what the driver prints): session 0 stalls before its OT,
+session 1 runs from start to end in the gap, a third Garble fails after one
+write and puts its scratch back, session 3 draws that scratch; session 0
+continues.  Every OT and result loop read their own session's digest. -/
+example :
+    (match runDigest false [.start 0, .start 1, .otBegin 1, .otEnd 1, .decode 1, .fail 2 1, .start 3,
+        .otBegin 0, .otBegin 3, .otEnd 0, .otEnd 3, .decode 0, .decode 3] with
+     | some st => (st.sess.map fun e => (e.id, e.scratch, e.otSeen, e.decSeen)) ==
+         [(3, 2, [4, 4], [4]), (1, 1, [2, 2], [2]), (0, 0, [1, 1], [1])]
+     | none => false) = true := by decide
+
+/-- **The same with the real writes of `Circuit.Garble`.**  Pool model with the
+actual write sequence (`garbleParams c`), well-formed circuit, any history:
+the wire table a session's OT or result loop reads carries, on every defined
+wire, the pair that `Circuit.garble` computes from the session's own key and
+tape — the garbling the secrecy theorems above are about. -/
+theorem C04_proc_ot_serves_own_wires {L : Type} [LabelAlg L] (c : Circuit) (hwf : c.WF = true)
+    (job : Nat → GJob L) (evs : List PEv) (st : PState (GMem L) (GJob L))
+    (hrun : runProc false (garbleParams c) job (initP (garbleParams c)) evs = some st) :
+    ∀ e ∈ st.sess, ∀ d, d ∈ e.otSeen ∨ d ∈ e.decSeen → ∀ w, c.defined w = true →
+      d.wires.get w = (c.garble (job e.id).H (job e.id).r (job e.id).inl).wires.get w := by
+  intro e he d hd w hw
+  have hi := pinv_run (garbleParams c) job evs _ st (pinv_init _ job) hrun
+  obtain ⟨H, hH, _, _, hall⟩ := hi.sess e he
+  have hgood := (good_reachable (garbleParams c) (fun m => m.wires.size = c.numWires)
+    (by simp [garbleParams]) (fun j f hf m hm => garbleProg_size c j f hf m hm) true st.σ hi.reach).2.2
+      e.handle H hH
+  rw [hall d hd]
+  exact (seqGarble_eq_garble c hwf (job e.id) H.init hgood).1 w hw
+
+/-- **C04 over process histories, end to end.**  Symbolic sessions (own tape,
+own key, own inputs and OT choices each), the real write sequence of
+`Circuit.Garble` on pooled scratch, ANY history of the process as the code runs
+it: the union of everything the evaluators obtain — every started session's
+tables and garbler input labels, and the labels delivered by its OT from
+whatever the wire table held at the call or at the return — does not span the
+offset of any session. -/
+theorem C04_process_secrecy {Code : Type} (p : Circuit2) (hwf : p.WF = true)
+    (ss : Nat → SymSession Code) (hh : ∀ s, (ss s).Honest p) (evs : List PEv)
+    (st : PState (GMem (SymL Code)) (GJob (SymL Code)))
+    (hrun : runProc false (garbleParams p.c) (fun s => (ss s).job) (initP (garbleParams p.c)) evs = some st)
+    (k : Nat) :
+    ¬ PSpan (processView p ss (fun s => ∃ e ∈ st.sess, e.id = s)
+        (fun s d => ∃ e ∈ st.sess, e.id = s ∧ ∃ m ∈ e.otSeen, d = m.wires))
+      (lift k (symR (ss k).σ)) := by
+  apply C04_process_offset_not_in_span p hwf ss hh
+  intro s d _ hd i hi
+  obtain ⟨e, he, rfl, m, hm, rfl⟩ := hd
+  have hwf' := hwf
+  simp only [Circuit2.WF, Bool.and_eq_true, decide_eq_true_eq] at hwf'
+  obtain ⟨⟨⟨hcwf, hnin⟩, _⟩, _⟩ := hwf'
+  exact C04_proc_ot_serves_own_wires p.c hcwf (fun s => (ss s).job) evs st hrun e he m (Or.inl hm)
+    (p.n0 + i) (input_defined p.c _ (by omega))
+
+/-- Non-vacuity of `C04_process_secrecy` / `C04_proc_ot_serves_own_wires`: for
+the example circuit and ANY jobs, the history "session 0 starts and stalls,
+session 1 starts, its OT runs, session 0's OT runs" is a run of the model, and
+both sessions have OT reads recorded. -/
+example {L : Type} [LabelAlg L] (job : Nat → GJob L) :
+    ∃ st, runProc false (garbleParams procExample.c) job (initP (garbleParams procExample.c))
+        [.start 0, .start 1, .otBegin 1, .otEnd 1, .otBegin 0, .otEnd 0] = some st ∧
+      st.sess.map (fun e => (e.id, e.otSeen.length)) = [(1, 2), (0, 2)] :=
+  ⟨_, rfl, rfl⟩
+
+/-- **What the property excludes: the scratch goes back to the pool before its
+last use.**  `early = true`: the garbler calls `garbled.Release()` once the
+tables and its own input labels are sent and keeps reading through the slice it
+copied out.  (1) Session 0 stalls before its OT, session 1 garbles in the gap:
+it draws session 0's scratch, and session 0's OT, when it resumes, reads
+session 1's wire pairs (digest 2), so does its result loop.  (2) Session 0
+stalls between two OT messages: the wire table changes under the OT.  (3) The
+code as it is (`early = false`) reads its own garbling on both histories. -/
+theorem C04_proc_early_release_serves_foreign :
+    (match runDigest true [.start 0, .start 1, .otBegin 0, .otEnd 0, .decode 0, .otBegin 1, .otEnd 1] with
+     | some st => (st.sess.map fun e => (e.id, e.scratch, e.otSeen, e.decSeen, servedBy e)) ==
+         [(1, 0, [2, 2], [], some 1), (0, 0, [2, 2], [2], some 1)]
+     | none => false) = true ∧
+    (match runDigest true [.start 0, .otBegin 0, .start 1, .otEnd 0] with
+     | some st => (st.sess.map fun e => (e.id, e.otSeen, servedBy e)) == [(1, [], none), (0, [1, 2], none)]
+     | none => false) = true ∧
+    (match runDigest false [.start 0, .start 1, .otBegin 0, .otEnd 0, .decode 0, .otBegin 1, .otEnd 1] with
+     | some st => (st.sess.map fun e => (e.id, e.scratch, e.otSeen, e.decSeen, servedBy e)) ==
+         [(1, 1, [2, 2], [], some 1), (0, 0, [1, 1], [1], some 0)]
+     | none => false) = true := by decide
+
+end Mpc.GProc
